@@ -1,5 +1,6 @@
 //@ item: integer/src/div_ops.rs :: impl UBig :: is_multiple_of
 pub fn is_multiple_of(&self, divisor: &Self) -> bool
+/*@ #[ref_operand(divisor)] @*/
 /*@
     requires
         self.0.v() >= 0, divisor.0.v() >= 0,        // type invariant of UBig
